@@ -21,19 +21,143 @@ RULE = ("seeded random histories over non-constant float view families (base = l
         "one or two further graph epochs: from each memory family one tensor of the cleared graph survives (its gradient nulled or "
         "left stale), the others are hidden or deleted; new views of the survivors (former views included), in-place writes through them "
         "and reads follow, then a new read-out and backward(); values of the tensors the epoch uses are compared with NumPy (survivor = "
-        "its own memory) and their gradients with finite differences injected after max(epoch boundary, last in-place statement).")
+        "its own memory) and their gradients with finite differences injected after max(epoch boundary, last in-place statement). Histories also "
+        "contain in-place statements NumPy rejects (wrong shape, IndexError), which the user catches and which the reference program skips, "
+        "and where= masks given as the Python scalars True/False. Every sixteenth case is a *pole* program: an in-place write (basic / integer / "
+        "repeated / boolean set-item or masked out=, through the tensor or a view of it) of the value at which the function applied next "
+        "(sqrt, cbrt, arcsin, arccos, **0.5) has an infinite derivative; closed-form oracle: the overwritten elements and superseded value "
+        "entries get exactly 0 (not nan), all other elements the analytic derivative.")
 ASSUMPTIONS = ["NumPy's in-place semantics on the same statements define 'the equivalent purely functional program'",
                "constant tensors are never in-place targets here (their flag semantics are C10's)", "kinks / ill-conditioned directions skipped and counted",
                "across an epoch boundary MyGrad severs view relations (in-place updates act on a copy of the target's memory); tensors of an earlier "
                "epoch that the new epoch does not use are not observed, and a non-nulled survivor on which the new read-out does not depend may keep its stale gradient"]
-TIERS = {"quick": {"cases": 8000, "nstmts": (3, 10), "bad_w": 0.3}, "thorough": {"cases": 150000, "nstmts": (4, 24), "bad_w": 0.3}}
-FLOORS = {"quick": {"fd_ok": 15000, "inplace_stmts": 3000, "epoch2_fd_ok": 4000, "epoch2_inplace_stmts": 800},
-          "thorough": {"fd_ok": 75000, "inplace_stmts": 15000, "epoch2_fd_ok": 20000, "epoch2_inplace_stmts": 4000}}
+TIERS = {"quick": {"cases": 8000, "nstmts": (3, 10), "bad_w": 0.3, "pole": True}, "thorough": {"cases": 150000, "nstmts": (4, 24), "bad_w": 0.3, "pole": True}}
+FLOORS = {"quick": {"fd_ok": 15000, "inplace_stmts": 3000, "epoch2_fd_ok": 4000, "epoch2_inplace_stmts": 800, "pole_cases": 400},
+          "thorough": {"fd_ok": 75000, "inplace_stmts": 15000, "epoch2_fd_ok": 20000, "epoch2_inplace_stmts": 4000, "pole_cases": 8000}}
 SKIP_BUDGET = {"fd": ("fd_skipped", "fd_dirs", 0.15)}
 TAU = 1e-8
 
 
+POLE_FNS = {   # function -> (value written, at which the function is finite but its derivative is not; derivative elsewhere; operand range)
+    "sqrt": (0.0, lambda b: 0.5 / np.sqrt(b), (1.0, 5.0)), "cbrt": (0.0, lambda b: 1.0 / (3.0 * np.cbrt(b) ** 2), (1.0, 5.0)),
+    "arcsin": (1.0, lambda b: 1.0 / np.sqrt(1.0 - b * b), (0.1, 0.8)), "arccos": (1.0, lambda b: -1.0 / np.sqrt(1.0 - b * b), (0.1, 0.8)),
+    "power_half": (0.0, lambda b: 0.5 / np.sqrt(b), (1.0, 5.0)),
+}
+
+
+def gen_pole(rng):
+    """An in-place update writes, into part of a tensor or of a view of it, a value at which the function applied NEXT has an infinite derivative
+    (sqrt at the 0 just written).  The overwritten old contents are out of the computation: their gradient is exactly 0 - not nan - and every
+    other element's is the closed-form derivative."""
+    shape = rng.choice([[4], [5], [6], [2, 3], [3, 2], [2, 2]])
+    fn = rng.choice(sorted(POLE_FNS))
+    lo, hi = POLE_FNS[fn][2]
+    n = int(np.prod(shape))
+    return {"kind": "pole", "shape": shape, "fn": fn, "x": [round(rng.uniform(lo, hi), 4) for _ in range(n)], "w": [round(rng.uniform(0.5, 2.0), 3) for _ in range(n)],
+            "c": rng.choice([1.0, 1.0, 0.5]) if fn in ("arcsin", "arccos") else rng.choice([1.0, 1.5]),
+            "view": rng.choice(["none", "none", "slice", "reshape", "T", "rev", "slice_of_slice"]),
+            "write": rng.choice(["setitem_basic", "setitem_basic", "setitem_int", "setitem_int_repeat", "setitem_bool", "masked_out", "masked_out", "aug_zero"]),
+            "carrier": rng.choice(["py", "py", "arr", "tconst", "tvar"]), "kseed": rng.randrange(1 << 30)}
+
+
+def run_pole(case):
+    import mygrad as mg
+    REG.reset()
+    rng = random.Random(case["kseed"])
+    fn, shape = case["fn"], tuple(case["shape"])
+    pole, fprime, _ = POLE_FNS[fn]
+    cnt, viol = {"pole_cases": 1}, []
+    x0 = mg.tensor(np.array(case["x"]).reshape(shape))
+    w = np.array(case["w"]).reshape(shape)
+    b = x0 * case["c"]
+    ids = np.arange(b.size).reshape(shape)
+    views = {"none": lambda a: a, "slice": lambda a: a[1:], "reshape": lambda a: a.reshape(-1), "T": lambda a: a.T, "rev": lambda a: a[::-1],
+             "slice_of_slice": lambda a: a[1:][:2]}
+    vf = views[case["view"]]
+    tgt, tids = vf(b), vf(ids)
+    if tids.size == 0:
+        return {"viol": [], "counters": {}, "skip": "empty target"}
+    k = tids.shape[0]
+    value_t = None
+    def carrier(shape_):
+        nonlocal value_t
+        c = case["carrier"]
+        if c == "py":
+            return pole
+        a = np.full(shape_, pole)
+        if c == "arr":
+            return a
+        value_t = mg.tensor(a, constant=(c == "tconst"))
+        return value_t
+    wr = case["write"]
+    redundant = None
+    with np.errstate(all="ignore"):
+        if wr == "setitem_basic":
+            j = rng.randrange(k)
+            tgt[j] = carrier(np.shape(tids[j]))
+            written = np.ravel(tids[j])
+        elif wr in ("setitem_int", "setitem_int_repeat"):
+            idx = [rng.randrange(k) for _ in range(rng.randint(1, 3))]
+            if wr == "setitem_int_repeat":
+                idx = idx + [idx[0]]
+            ia = np.array(idx)
+            tgt[ia] = carrier(tids[ia].shape)
+            written = np.ravel(tids[ia])
+            redundant = ia
+        elif wr == "setitem_bool":
+            m = np.array([rng.random() < 0.5 for _ in range(tids.size)]).reshape(tids.shape)
+            if not m.any():
+                m.flat[0] = True
+            tgt[m] = carrier(tids[m].shape)
+            written = np.ravel(tids[m])
+        elif wr == "masked_out":
+            m = np.array([rng.random() < 0.5 for _ in range(tids.size)]).reshape(tids.shape)
+            if not m.any():
+                m.flat[0] = True
+            if m.all() and m.size > 1:
+                m.flat[-1] = False
+            src = carrier(tids.shape)
+            mg.add(src if not isinstance(src, float) else np.full(tids.shape, pole), 0.0, where=m, out=tgt)
+            written = np.ravel(tids[m])
+        else:   # aug_zero: v -= v is not "overwriting" (it depends on the old contents): instead x[j] = pole via a 1-element slice
+            j = rng.randrange(k)
+            tgt[j:j + 1] = carrier(np.shape(tids[j:j + 1]))
+            written = np.ravel(tids[j:j + 1])
+        f = {"sqrt": mg.sqrt, "cbrt": mg.cbrt, "arcsin": mg.arcsin, "arccos": mg.arccos, "power_half": lambda t: t ** np.array(0.5)}[fn]
+        y = f(b)
+        L = (y * w).sum()
+        L.backward()
+    g = x0.grad
+    cnt["pole_written_elements"] = int(len(set(written.tolist())))
+    if g is None:
+        viol.append({"monitor": "pole", "mech": "pole:no-gradient", "msg": f"{fn} after {wr} through view '{case['view']}': the leaf has no gradient"})
+    else:
+        gf = g.ravel()
+        wset = sorted(set(written.tolist()))
+        keep = [i for i in range(gf.size) if i not in wset]
+        if np.any(np.isnan(gf[wset])) or np.any(gf[wset] != 0):
+            viol.append({"monitor": "pole", "mech": "pole:overwritten-elements-gradient-not-zero",
+                         "msg": f"{fn} after {wr} ({case['carrier']}) through view '{case['view']}': the overwritten old contents get gradient {gf[wset]} instead of exactly 0"})
+        want = (case["c"] * w * fprime(np.array(case["x"]).reshape(shape) * case["c"])).ravel()
+        if keep and not np.allclose(gf[keep], want[keep], rtol=1e-10, atol=0):
+            viol.append({"monitor": "pole", "mech": "pole:untouched-elements-gradient", "msg": f"{fn} after {wr}: gradient of untouched elements {gf[keep]} differs from the closed form {want[keep]}"})
+    if value_t is not None and not value_t.constant and redundant is not None and len(redundant) > len(set(redundant.tolist())) and value_t.grad is not None:
+        # a value entry whose write was superseded by a later entry of the same index took no effect: its gradient is exactly 0
+        last = {}
+        for pos, i_ in enumerate(redundant.tolist()):
+            last[i_] = pos
+        dead = [pos for pos, i_ in enumerate(redundant.tolist()) if last[i_] != pos]
+        gv = value_t.grad.reshape(len(redundant), -1)
+        cnt["pole_superseded_entries"] = len(dead)
+        if np.any(np.isnan(gv[dead])) or np.any(gv[dead] != 0):
+            viol.append({"monitor": "pole", "mech": "pole:superseded-value-gradient-not-zero", "msg": f"value entries {dead} of a repeated-index set-item took no effect but get gradient {gv[dead].ravel()}"})
+    return {"viol": viol[:3], "counters": cnt, "sets": {"pole_kinds": [f"{fn}:{wr}:{case['view']}:{case['carrier']}"]},
+            "sig": f"pole:{fn}:{wr}:{case['view']}:{case['carrier']}:{shape}", "nontrivial": True}
+
+
 def gen_case(rng, cfg, idx):
+    if idx % 16 == 9 and cfg.get("pole"):      # (other checks borrow this generator for their histories: they pass no "pole")
+        return gen_pole(rng)
     for _ in range(10):
         b, base, n_inplace = gen_history(rng, nstmts=cfg["nstmts"], int_prob=0.0, nonconst_only=True, setshape_w=0.3,
                                          const_kw_prob=0.45 if idx % 5 == 4 else 0.0, cv_as_targets=True, layer_reads=True,
@@ -65,6 +189,8 @@ def gen_case(rng, cfg, idx):
 
 
 def run_case(case):
+    if case.get("kind") == "pole":
+        return run_pole(case)
     prog = case["prog"]
     bws = case.get("bws") or [len(prog) - 1]
     bad_stmts = tuple(i for i, st in enumerate(prog) if st.get("expect_raise"))    # rejected by NumPy too: not part of the reference computation
